@@ -311,4 +311,26 @@ PROPS.update({
     },
 })
 
+PROPS.update({
+    "C16": {
+        "coq": "Properties/C16.v",
+        "pinchecks": ["PinChecks/PcBody_util.v", "PinChecks/PcBody_model.v", "PinChecks/PcBody_adapters.v", "PinChecks/PcLiterals.v"],
+        "gen": "c16",
+        "level_text": "Coq theorems at BYTE level over Model/Csv.v and Model/Ini.v (validated against the real functions through the cfg(casbin_verif) hooks): "
+                      "c16_parse_render_row (every csv-safe row under every spacing/quoting layout parses back, scanner fuel proved adequate), file level with "
+                      "comment/blank lines and CRLF (c16_parsed_lines_file), the adapters' save text parses to the stored lines (C09text.v: save then load = "
+                      "identity for csv-safe values); c16_parse_layout / c16_layout_independence (blank/comment lines, spacing, CRLF, continuation breaks: same "
+                      "definitions, matcher values modulo white space), escape_assertion lemmas, c16_to_text_roundtrip_structural (model_of_text (to_text m) = "
+                      "Some m under decidable well-formedness, any replacement order); witnesses for every restriction (D17, D18, D21, token inside a longer "
+                      "word). The extracted c16_csv_pred / c16_model_equiv are evaluated on the implementation's outputs",
+        "partial": "totality on arbitrary text is a Gallina fact for the model; for the real code it is the noise stream under catch_unwind plus body-hash pins; "
+                   "escape_assertion (print_expr e) and the whole-model lift of field-list spacing are shown by examples only",
+        "level_note": "trusted: Coq kernel, extraction, harness, the guarded hook re-exports; modelled not verified: the regex crate's find_iter on ESC_C / ESC_A "
+                      "(restated as deterministic scanners), Unicode white space beyond ASCII is outside the byte-level model",
+        "explanation": "theorems c16_* and c09_* (text); policy lines x layouts, model texts x layouts, to_text round trip, noise / mutated texts",
+        "assumptions": ["values are csv-safe (non-empty, no double quote, no line break, no leading/trailing white space; commas allowed via quoting)",
+                        "layout grammar excludes a comment or blank line inside a continuation (D21) and breaks inside lexemes / string literals"],
+    },
+})
+
 NOT_CLAIMED = {}
